@@ -79,7 +79,7 @@ def with_ids(case):
             act['probe'] = new_id(act.get('cfg'))
     for ph in PHASES:
         for ins in c.get('phases', {}).get(ph, []):
-            if ins['k'] in ('run', 'from'):
+            if ins['k'] in ('run', 'from', 'filefrom'):
                 do_program(ins['p'])
             elif ins['k'] in ('sys', 'shell'):
                 ins['probe'] = new_id(ins.get('cfg'))
@@ -104,6 +104,7 @@ class Model:
         self.inv = []  # expected invocations
         self.unknown_probes = set()  # probes whose invocation is not determined by the manual
         self.fuzzy = False  # verdict not determined by the manual
+        self.out_files = {}  # path of a file created from the output of a program -> contents
         self._optional = 0
 
     # -- strings ------------------------------------------------------------
@@ -411,7 +412,7 @@ class Model:
                 verdicts = {'HARD_ERROR'} if verdict is None else {verdict, 'HARD_ERROR'}
                 break
         return {'verdict': None if self.fuzzy else verdicts, 'act': act_outcome, 'inv': self.inv,
-                'unknown_probes': self.unknown_probes}
+                'unknown_probes': self.unknown_probes, 'out_files': self.out_files}
 
     def exec_instr(self, ins, phase):
         """-> 'pass' | 'fail' | 'hard'   ('fail' only in [assert])"""
@@ -435,6 +436,13 @@ class Model:
                 alts.append(plain)
             self.record(ins['probe'], alts, [])
             return bad if self.probes[ins['probe']].get('exit', 0) != 0 else 'pass'
+        if k == 'filefrom':
+            # file PATH = (-stdout-from|-stderr-from) [-ignore-exit-code] PROGRAM   (`help syntax TEXT-SOURCE`)
+            r = self.run_program(ins['p'], consume=ins['chan'], count='1+')
+            if r.get('hard') or (r['exit'] != 0 and not ins.get('ignore')):
+                return 'hard'
+            self.out_files[self.path_value(ins['rel'], ins['name'])] = r[ins['chan']]
+            return 'pass'
         if k == 'from':
             what = ins['what']
             r = self.run_program(ins['p'], consume=None if what == 'exit' else what)
